@@ -10,7 +10,9 @@
 (*  "aio"     tokio AsyncRead / AsyncWrite / AsyncBufRead / AsyncSeek polls    *)
 (*  "iter"    Iterator / DoubleEndedIterator / ExactSizeIterator: next,        *)
 (*            next_back, nth, drain, len, size_hint, refill (a non-fused       *)
-(*            source that yields again after None), poke (the caller moves     *)
+(*            source that yields again after None), reset_bar (the caller's    *)
+(*            ProgressBar::reset: a refilled source then finishes the bar      *)
+(*            again, with the same finish behaviour), poke (the caller moves   *)
 (*            the bar) - for every finish behaviour, known / unknown length    *)
 (*  "stream"  futures Stream: poll_next with Pending, until exhaustion         *)
 (*  "par"     rayon: every binary split tree of 1..N items (splits in id       *)
@@ -70,8 +72,8 @@ AvailAfter(o) == IF o.op \in {"fill_buf", "poll_fill_buf"} THEN (IF o.rs[1].r = 
                  ELSE IF o.op \in {"consume", "aconsume"} THEN avail - o.amt ELSE avail
 
 IterNews == {New(hl, IF hl THEN FromSmall(items + 1) ELSE Zero, Zero, b, items) : hl \in BOOLEAN, b \in Behs, items \in (IF Rich THEN {0, 1, 2} ELSE {0, 2})}
-IterOps == {[op |-> "next"], [op |-> "next_back"], [op |-> "nth", k |-> 1], [op |-> "drain"], [op |-> "len"], [op |-> "size_hint"], [op |-> "refill", k |-> 1], [op |-> "poke"]}
-StreamOps == {[op |-> "poll_next", rs |-> <<>>], [op |-> "poll_next", rs |-> <<Pd>>], [op |-> "poke"], [op |-> "refill", k |-> 1]}
+IterOps == {[op |-> "next"], [op |-> "next_back"], [op |-> "nth", k |-> 1], [op |-> "drain"], [op |-> "len"], [op |-> "size_hint"], [op |-> "refill", k |-> 1], [op |-> "poke"], [op |-> "reset_bar"]}
+StreamOps == {[op |-> "poll_next", rs |-> <<>>], [op |-> "poll_next", rs |-> <<Pd>>], [op |-> "poke"], [op |-> "refill", k |-> 1], [op |-> "reset_bar"]}
 (* items remaining after an iterator operation (used to stop polling an exhausted stream) *)
 RemAfter(o) == CASE o.op \in {"next", "next_back"} -> IF rem > 0 THEN rem - 1 ELSE 0
                  [] o.op = "poll_next" -> IF o.rs = <<>> /\ rem > 0 THEN rem - 1 ELSE rem
